@@ -218,7 +218,7 @@ func runC40(c *Ctx) {
 							okL = true
 						}
 						// an object owned by the receiver (cache entries, list elements) is guarded by the receiver's mutex
-						if len(fn.Params) > 0 && fn.Signature.Recv() != nil && strings.HasPrefix(l, fn.Params[0].Name()+".") {
+						if len(fn.Params) > 0 && fn.Signature.Recv() != nil && strings.HasPrefix(l, u.VarName(fn.Params[0])+".") {
 							okL = true
 						}
 					}
